@@ -36,7 +36,10 @@ class P(ServeProp):
             cors, origins = gs.gen_cors(rnd)
             hs = []
             if rnd.random() < 0.5: hs.append("Origin: " + gs.gen_origin(rnd, origins))
-            if rnd.random() < 0.4: hs += ["Access-Control-Request-Method: PUT", "Access-Control-Request-Headers: X-A, Content-Type"]
+            if rnd.random() < 0.4:
+                # what a browser sends before a cross-origin request; header names in any letter case
+                nm = rnd.choice([str, str, str.lower, str.upper])
+                hs += [nm("Access-Control-Request-Method") + ": " + rnd.choice(["PUT", "GET", "DELETE"]), nm("Access-Control-Request-Headers") + ": " + rnd.choice(["X-A, Content-Type", "Range", "x-b", "Authorization,X-A"])]
             if rnd.random() < 0.2: hs.append("Range: " + rnd.choice(["bytes=0-0", "bytes=0-", "bytes=1-2", "bytes=0-0,2-2", "bytes=-1"]))
             for k, meth in enumerate(["GET", "HEAD", "OPTIONS"]):
                 out.append(gs.serve_case(rnd, kind=kind, tree=t, target=tg, method=meth, headers=hs, cors=cors, meta="trip=%d.%d" % (i, k)))
@@ -87,6 +90,27 @@ class P(ServeProp):
                 fails.append((io, "options-not-success")); continue
             if O[3] != b"":
                 fails.append((io, "options-has-body")); continue
+            # "carrying the cross-origin preflight grants, so that browser preflights succeed": with the allow-all switch on and an Origin,
+            # the browser's test - origin echoed, the requested method and every requested header named in the grants
+            pc = gs.parse_case(cases[io])
+            if pc["cors"] == "all":
+                rq = {}
+                for l in pc["req"].split(b"\r\n\r\n")[0].split(b"\r\n")[1:]:
+                    k = l.find(b": ")
+                    if k > 0: rq.setdefault(l[:k].decode("latin-1").lower(), l[k + 2:].decode("latin-1"))
+                if rq.get("origin"):
+                    oh = {}
+                    for n, v in O[2]: oh.setdefault(n.decode("latin-1").lower(), v.decode("latin-1"))
+                    if oh.get("access-control-allow-origin") != rq["origin"]:
+                        fails.append((io, "preflight-origin-not-granted")); continue
+                    m = rq.get("access-control-request-method")
+                    if m is not None and m.strip() not in [x.strip() for x in oh.get("access-control-allow-methods", "").split(",")]:
+                        fails.append((io, "preflight-method-not-granted")); continue
+                    hh = rq.get("access-control-request-headers")
+                    if hh is not None:
+                        granted = [x.strip().lower() for x in oh.get("access-control-allow-headers", "").split(",")]
+                        if any(x.strip().lower() not in granted for x in hh.split(",") if x.strip()):
+                            fails.append((io, "preflight-headers-not-granted")); continue
         return fails
 
     def nontrivial(self, line, out):
